@@ -269,10 +269,10 @@ fn zst_clone(c: &mut Ctx, rng: &mut Rng) {
 /// clone / clone_from of very large sparse tables (2^22..2^27 buckets) holding a few elements whose probes wrap around
 /// the end of the table: the copy must find every element again (a block-wise copy that forgets the trailing mirror
 /// bytes, or the last partial block, shows as a failed lookup, as `clone != source`, or as an I4 violation).
-fn huge_clone_case(c: &mut Ctx, rng: &mut Rng) {
+fn huge_clone_case(c: &mut Ctx, rng: &mut Rng, idx_hint: u64) {
     use crate::plan::{Plan, PlanBH};
     use crate::states::{Coll, SetC};
-    let lg = *rng.pick(&[22u32, 24, 26, 27, 27]);
+    let lg = if idx_hint == 3 { 27 } else { *rng.pick(&[22u32, 24, 27]) };
     let cap = (1usize << lg) / 8 * 7;
     let plan = *rng.pick(&[Plan::Tail, Plan::Tail, Plan::Max, Plan::Mixed]);
     let bh = PlanBH::new(plan, rng.next());
@@ -325,8 +325,10 @@ pub fn run(c: &mut Ctx) {
     // this property rebuilds every state many times: very large sparse states are capped at 2^24 buckets
     crate::states::set_huge_max_lg(24);
     c.run_scenarios(|c, idx, rng| {
-        if crate::util::mix(idx ^ 0xc11) % 8000 == 0 && !crate::util::slow_lane() && c.lane != "asan" {
-            huge_clone_case(c, rng);
+        // three fixed scenario indices per lane and run (they are reached within the first seconds of whichever shard owns them):
+        // the case is expensive, so its number is fixed instead of drawn
+        if (idx == 3 || idx == 11 || idx == 40) && !crate::util::slow_lane() && c.lane != "asan" {
+            huge_clone_case(c, rng, idx);
             return;
         }
         let n = RECIPES.len() as u64;
